@@ -155,9 +155,19 @@ def morgan_generator(
         id_nbrs_tuple_list.append((ids, nbrs))
 
     for _ in itertools.repeat(None):
+        prev_atom_hash = atom_hash.copy()
         for ids, nbrs in id_nbrs_tuple_list:
-            # Compute the new hash for each atom based on its neighbors
-            atom_hash[ids] = numpy_int_multiset_hash(atom_hash[nbrs])
+            # Compute the new hash for each atom based on its own color
+            # and the colors of its neighbors
+            atom_hash[ids] = numpy_int_tuple_hash(
+                np.stack(
+                    (
+                        prev_atom_hash[ids],
+                        numpy_int_multiset_hash(prev_atom_hash[nbrs]),
+                    ),
+                    axis=-1,
+                )
+            )
         atom_hash_view = atom_hash.view()
         atom_hash_view.setflags(write=False)
         yield atom_hash_view
